@@ -468,8 +468,8 @@ PLANS["C20"] = dict(cases=c20_cases)
 PLANS["C19"] = dict(cases=report_cases())
 PLANS["C09"] = dict(cases=c09_cases, l1=l1(dict(family="deps", invariants=["Inv_C09"])))
 PLANS["C15"] = dict(cases=c15_cases, l1=l1(dict(family="deps", invariants=["Inv_C15"])))
-PLANS["C17"] = dict(cases=c17_cases)
-PLANS["C18"] = dict(cases=c18_cases)
+PLANS["C17"] = dict(cases=c17_cases, l1=l1(dict(family="deps", invariants=["Inv_C17"])))
+PLANS["C18"] = dict(cases=c18_cases, l1=l1(dict(family="abs", invariants=["Inv_C18"]), dict(family="placeflat", invariants=["Inv_C18"])))
 PLANS["C16"] = dict(cases=c16_cases)
 PLANS["C05"]["cases"] = both(PLANS["C05"]["cases"], c05_maxtime_cases)
 PLANS["C08"]["cases"] = both(PLANS["C08"]["cases"], c08_hist_cases, unit2_cases())
